@@ -86,12 +86,14 @@ func init() {
 		propertySpec{ID: "C03", Harnesses: []harnessSpec{
 			h("cont.H_Hist", noAs2(hist(1, 3, 3, 1, 1)), noAs2(hist(1, 3, 3, 1, 2)), histCov, 30, histDesc),
 			h("cont.H_Hist", noAs2(hist(0, 2, 3, 1, 1)), noAs2(hist(0, 2, 4, 2, 1)), histCov, 0, histDesc),
+			h("cont.H_OptionalFault", map[string]int{"rounds": 3, "order_schemes": 1}, map[string]int{"rounds": 4, "order_schemes": 2}, []string{"consumer_built", "built_around_failure"}, 10, "a scoped or transient consumer whose parameter object has an optional field of a transient type (3 shapes), constructed in several scopes while the optional dependency's constructor fails (error / panic) at a symbolic invocation: no two consumers receive one transient instance, and a consumer built while the dependency could not be constructed holds nothing in that field"),
 		}},
 		propertySpec{ID: "C04", Harnesses: []harnessSpec{
 			h("cont.H_Hist", noAs2(hist(0, 2, 3, 1, 1)), noAs2(hist(0, 2, 4, 2, 1)), histCov, 30, histDesc),
 			h("cont.H_Hist", noAs2(hist(1, 3, 2, 0, 1)), noAs2(hist(1, 3, 4, 1, 1)), histCov, 0, histDesc),
 			h("cont.H_Hist", noAs2(hist(2, 2, 2, 0, 1)), noAs2(hist(2, 2, 4, 1, 1)), histCov, 0, histDesc),
 			h("cont.H_Hist", auxnil(noAs2(hist(4, 2, 3, 1, 1))), auxnil(noAs2(hist(4, 2, 4, 2, 1))), histCov, 20, histDesc),
+h("cont.H_OptionalFault", map[string]int{"rounds": 3, "order_schemes": 1}, map[string]int{"rounds": 4, "order_schemes": 2}, []string{"consumer_built", "built_around_failure"}, 10, "a scoped or transient consumer whose parameter object has an optional field of a transient type (3 shapes), constructed in several scopes while the optional dependency's constructor fails (error / panic) at a symbolic invocation: no two consumers receive one transient instance, and a consumer built while the dependency could not be constructed holds nothing in that field"),
 			h("cont.H_FuncKinds", map[string]int{"order_schemes": 1}, map[string]int{"order_schemes": 2}, []string{"resolved"}, 20, "two registrations under two names whose constructors are function values of one kind {top-level functions, closures of one //go:noinline factory, method values of one method, two generic instantiations, reflect.MakeFunc functions, closures consuming a MakeFunc-built dependency of another signature, one generic instantiation twice, constructors whose parameter objects are two function-local types of the same name with differently tagged fields} x lifetime x registration order: each identity must be produced by exactly the function value registered for it"),
 			h("cont.H_SharedCodeConc", map[string]int{"rounds": 1, "race": 0, "order_schemes": 1}, map[string]int{"rounds": 2, "race": 0, "order_schemes": 1}, []string{"both_done"}, 10, "two goroutines resolving, in their own scopes, services whose constructors share code: reflect.MakeFunc values of two signatures, or closures of one literal under two names whose dependency's constructor yields (another resolution runs between choosing the function value and calling it); every interleaving at those points; each identity built by exactly its own function value"),
 		}},
@@ -102,6 +104,7 @@ func init() {
 			h("cont.H_Build", bld(4, 2, 2), bld(4, 3, 2), buildCov, 0, buildDesc),
 			h("cont.H_Rebuild", bld(3, 2, 1), bld(0, 2, 1), append([]string{"model_conflict", "first_build_ok", "first_build_failed"}, buildCov...), 20, rebuildDesc),
 			h("cont.H_Build", bld(6, 4, 1), bld(6, 4, 2), append([]string{"model_conflict"}, buildCov...), 0, buildDesc+"; profile 6: four registrations, interface-typed groups with several members in front of / behind a plain dependency"),
+			h("cont.H_Rebuild", with2(bld(1, 2, 1), "edit", 1), with2(bld(1, 2, 2), "edit", 1), append([]string{"first_build_ok", "first_build_failed"}, buildCov...), 0, "a collection is built while one (symbolic) registration of the world is still missing; that registration is added afterwards: the provider built before never runs its constructor and holds nothing scoped in a non-scoped instance; the second Build judges the full set like a fresh collection and returns the verdict class a fresh collection with the same registrations returns"),
 			h("cont.H_KeyedLifetimes", map[string]int{"order_schemes": 2}, map[string]int{"order_schemes": 4}, []string{"built_twice", "model_conflict"}, 20, keyedLifeDesc),
 		}},
 		propertySpec{ID: "C08", Harnesses: []harnessSpec{
@@ -111,6 +114,8 @@ func init() {
 			h("cont.H_Build", bld(4, 2, 2), bld(4, 3, 2), buildCov, 0, buildDesc),
 			h("cont.H_Rebuild", bld(3, 2, 1), bld(0, 2, 1), append([]string{"first_build_ok", "first_build_failed"}, buildCov...), 0, rebuildDesc),
 			h("cont.H_Build", bld(6, 4, 1), bld(6, 4, 2), append([]string{"model_conflict"}, buildCov...), 0, buildDesc+"; profile 6: four registrations, interface-typed groups with several members in front of / behind a plain dependency"),
+			h("cont.H_Rebuild", with2(bld(1, 2, 1), "edit", 1), with2(bld(1, 2, 2), "edit", 1), append([]string{"first_build_ok", "first_build_failed"}, buildCov...), 0, "a collection is built while one (symbolic) registration of the world is still missing; that registration is added afterwards: the provider built before never runs its constructor and holds nothing scoped in a non-scoped instance; the second Build judges the full set like a fresh collection and returns the verdict class a fresh collection with the same registrations returns"),
+			h("cont.H_Rebuild", with2(bld(5, 4, 1), "edit", 1), with2(bld(5, 4, 2), "edit", 1), append([]string{"first_build_ok", "first_build_failed"}, buildCov...), 0, "a collection is built while one (symbolic) registration of the world is still missing; that registration is added afterwards: the provider built before never runs its constructor and holds nothing scoped in a non-scoped instance; the second Build judges the full set like a fresh collection and returns the verdict class a fresh collection with the same registrations returns"),
 			h("cont.H_KeyedLifetimes", map[string]int{"order_schemes": 2}, map[string]int{"order_schemes": 4}, []string{"built_twice", "model_conflict"}, 20, keyedLifeDesc),
 		}},
 	)
@@ -169,6 +174,7 @@ func init() {
 		propertySpec{ID: "C17", Harnesses: []harnessSpec{
 			h("cont.H_Registry", map[string]int{"L": 2, "order_schemes": 1}, map[string]int{"L": 3, "order_schemes": 1}, []string{"rejected_add", "rejected_second_identity", "rejected_unimplemented_interface", "remove", "remove_keyed", "snapshot"}, 30, "history of L operations {Add directly, Add through a module, Remove, RemoveKeyed, Build} over a pool of two concrete types, an auxiliary type and an interface, keys {nil,k1}, group g1, six registration forms incl. multi-output ones that collide on their second identity, plus registrations with two As options one of which names an interface the service does not implement (must be rejected whole); after every step Contains / ContainsKeyed / Count / ToSlice vs a reference registry; a final Build must use exactly the registry (resolvability per identity, group sizes, no constructor of a removed singleton runs); every provider built on the way is probed again after the later edits"),
 			h("cont.H_Registry", map[string]int{"L": 3, "prefix": 1, "order_schemes": 1}, map[string]int{"L": 4, "prefix": 1, "order_schemes": 1}, []string{"rejected_add", "rejected_second_identity", "rejected_unimplemented_interface", "remove", "remove_keyed", "snapshot"}, 0, "(histories starting with Add, Build; the remaining operations symbolic) history of L operations {Add directly, Add through a module, Remove, RemoveKeyed, Build} over a pool of two concrete types, an auxiliary type and an interface, keys {nil,k1}, group g1, six registration forms incl. multi-output ones that collide on their second identity, plus registrations with two As options one of which names an interface the service does not implement (must be rejected whole); after every step Contains / ContainsKeyed / Count / ToSlice vs a reference registry; a final Build must use exactly the registry (resolvability per identity, group sizes, no constructor of a removed singleton runs); every provider built on the way is probed again after the later edits"),
+			h("cont.H_Rebuild", with2(bld(1, 2, 1), "edit", 1), with2(bld(1, 2, 2), "edit", 1), append([]string{"first_build_ok", "first_build_failed"}, buildCov...), 0, "a collection is built while one (symbolic) registration of the world is still missing; that registration is added afterwards: the provider built before never runs its constructor and holds nothing scoped in a non-scoped instance; the second Build judges the full set like a fresh collection and returns the verdict class a fresh collection with the same registrations returns"),
 		}},
 	)
 	properties = append(properties,
@@ -249,6 +255,7 @@ func init() {
 				h("cont.H_Order", bld(0, 2, 2), bld(0, 2, 4), []string{"both_built", "both_failed_or_differ"}, 0, "as above, every plain dependency shape on two registrations"),
 				h("cont.H_Order", bld(1, 2, 2), bld(1, 2, 4), []string{"both_built", "both_failed_or_differ"}, 0, "as above on keyed / group / interface edges"),
 				h("cont.H_Order", bld(5, 4, 1), bld(5, 4, 2), []string{"both_built", "both_failed_or_differ"}, 0, "as above on four singleton registrations: consumers of an interface-typed value group, group members with plain dependencies of their own (a member may sit deeper in the graph than the members registered after it); four registration orders"),
+				h("cont.H_Rebuild", with2(bld(5, 4, 1), "edit", 1), with2(bld(5, 4, 2), "edit", 1), append([]string{"first_build_ok", "first_build_failed"}, buildCov...), 0, "a collection is built while one (symbolic) registration of the world is still missing; that registration is added afterwards: the provider built before never runs its constructor and holds nothing scoped in a non-scoped instance; the second Build judges the full set like a fresh collection and returns the verdict class a fresh collection with the same registrations returns"),
 				h("cont.H_KeyedLifetimes", map[string]int{"order_schemes": 2}, map[string]int{"order_schemes": 4}, []string{"built_twice", "model_conflict"}, 20, keyedLifeDesc))
 		}
 	}
